@@ -85,6 +85,38 @@ def _hdr(z, header):
         z.set_encrypted_header(True)
 
 
+def link_base(chain: str = "COPY"):
+    """py7zr-written tree with a symbolic link member (its link text is member data protected by a CRC like any other)."""
+    import shutil
+    import tempfile
+
+    import py7zr
+
+    td = tempfile.mkdtemp(prefix="c04l", dir="/dev/shm")
+    old = os.getcwd()
+    try:
+        os.makedirs(os.path.join(td, "x"))
+        for n, d in (("a.txt", b"alpha-member-" * 3), ("c.txt", b"gamma-member-" * 2)):
+            with open(os.path.join(td, "x", n), "wb") as f:
+                f.write(d)
+        os.symlink("a.txt", os.path.join(td, "x", "link"))
+        ns = 1_600_000_000_000_000_000
+        for n in ("x/a.txt", "x/c.txt", "x"):
+            os.utime(os.path.join(td, n), ns=(ns, ns))
+        os.utime(os.path.join(td, "x", "link"), ns=(ns, ns), follow_symlinks=False)
+        os.chdir(td)
+        bio = io.BytesIO()
+        with fixed_random("link"), py7zr.SevenZipFile(bio, "w", filters=chains.py_filters(chain)) as z:
+            z.set_encoded_header_mode(False)
+            z.writeall("x")
+    finally:
+        os.chdir(old)
+        shutil.rmtree(td, ignore_errors=True)
+    r = ref7z.read(bio.getvalue(), strict=False)
+    ms = [(m["name"], m["data"]) for m in r["members"] if m["kind"] != "dir"]
+    return _finish(f"py:{chain}:raw:symlink", bio.getvalue(), None, ms)
+
+
 def ref_base(name: str, layout: dict, password=None):
     ms = _members(3)
     members = [{"name": n, "kind": "file", "data": d, "mtime": 132223104000000000 + i, "attr": 0x20} for i, (n, d) in enumerate(ms)]
@@ -117,6 +149,7 @@ def all_bases(tier: str):
     for c, h, f in specs:
         out.append(py_base(c, h, f))
     out.append(zero_base("COPY", "raw"))
+    out.append(link_base("COPY"))
     if tier != "quick":
         out.append(zero_base("LZMA2", "encoded"))
         out.append(zero_base("BZIP2", "raw"))
